@@ -31,7 +31,7 @@ REQUIRED_FUNCTIONS = ["listener.py:parse", "listener.py:BlackbirdListener.enterP
 FUNCTIONS = REQUIRED_FUNCTIONS
 REQUIRED_HOOKS = ["parse-entry"]
 REQUIRED_TAGS = ["after:syntax-failure", "after:undefined-name-failure", "after:type-failure", "after:loop-failure", "after:include-failure", "after:other-failure",
-                 "after:success", "probe", "kind:template", "kind:tdm", "kind:include"]
+                 "after:success", "probe", "kind:template", "kind:tdm", "kind:include", "kind:regref"]
 ASSUMPTIONS = ["a forked child of a process that imported blackbird and loaded nothing is a pristine process (same hash seed)",
                "exception messages are compared after normalising the display order of set literals"]
 
@@ -63,6 +63,12 @@ STATIC = [
     ("valid", H % "b2" + "float array A =\n    " + ", ".join(str(100 + i) for i in range(40)) + "\nG(A[7], A[39]) | 0\n"),
     ("valid", H % "b3" + "float array m =\n    " + ", ".join(str(-i) for i in range(40)) + "\nG(m[7], m[0]) | 1\n"),
     ("fail-undefined", H % "b4" + "float array A =\n    " + ", ".join(str(7 * i) for i in range(40)) + "\nG(A[7]) | 0\nH(zz) | 1\n"),
+    # measured-register arguments: the same (and almost the same) expressions in several scripts, so that a transform
+    # object or a compiled function kept from an earlier load would be handed to a later one
+    ("regref", H % "g1" + "MeasureX | 0\nMeasureX | 1\nG(q0*0.3, k=q0) | 2\nH(q0*q1 - 2) | 3\n"),
+    ("regref", H % "g2" + "MeasureX | 0\nMeasureX | 1\nG(q0*0.30000000000000004) | 2\nH(q0*q1 - 2, q0) | 3\nK(k=[1, 2], l=q1/2) | 4\n"),
+    ("regref", H % "g3" + "float alpha = 0.3\nMeasureP | 0\nfor int m in 1:3\n    G(q0*alpha, q0*2 + m) | m\nH(q0*0.3) | 5\n"),
+    ("template", H % "g4" + "MeasureX | 1\nG({r}, q1/2, k=q1*{alpha}) | 0\nH(q1 / 2) | 2\n"),
     ("probe", H % "p1" + "target dev (shots=alpha)\nG | 0\n"),
     ("probe", H % "p2" + "target dev (x=m, y=2)\nG | 0\n"),
     ("probe", H % "p3" + "type custom (k=A)\nG | 0\n"),
